@@ -49,6 +49,13 @@ CLAIMED = {
                  "documented table at the successor row; the three identities of the Monte-Carlo fori_loop body and its bounds; Dyna-Q's replayed transitions and the row footprint of its model.",
         "note": "Trusted: jnp .at[].add/.set, argmax, fori_loop semantics. Not decided: float values; that argmax tie-breaking matches a reference implementation.",
     },
+    "C12": {
+        "technique": "static analysis: normal-form identity of each actor objective against a spec expression normalised by the same engine, gradient-site argnums resolved through the loss signature, per-path polynomial evaluation of the weights computed outside the differentiated function, def/loop placement of PPO's old log-probabilities",
+        "level": "Decides for all batches / parameters (formula identity and structure): pseudo-loss == -mean(w*log pi) with weights that are plain arguments (constants of the gradient) equal to the documented "
+                 "quantities on every path of the three callers; PPO clipped objective incl. min/clip orientation, ratio direction, value and entropy coefficients, logp_old fixed before the epoch "
+                 "loop on the same data, GAE argument roles; DPG / SALE / MR.Q / SAC actor and temperature losses incl. signs and alpha = exp(log_alpha); every actor update differentiates exactly the actor.",
+        "note": "Trusted: tfp log_prob/entropy, jnp.minimum/clip. Not decided: float values, batch-size-1 behaviour.",
+    },
 }
 
 NOT_APPLICABLE = {}
